@@ -229,6 +229,12 @@ def check_index(w: World, slot_idx: int, probe_dids=(), probe_data=()):
             ff = b.find_first(data_id=d)
             if (ff is None) != (not exp) or (exp and all(ff is not x for x in exp)):
                 fail("node.find_first(data_id=) wrong", "node-lookup")
+            if len(exp) > 1:
+                k = len(exp) - 1
+                sub = b.find_all(data_id=d, max_results=k)
+                if len(sub) != k or any(all(x is not y for y in exp) for x in sub):
+                    fail(f"node.find_all(data_id=, max_results={k}) returns {len(sub)} of "
+                         f"{len(exp)} carriers below the node", "node-lookup/max_results")
         for obj in seen_data.values():
             try:
                 d = mt.rule(obj)
